@@ -3,15 +3,17 @@ import RV.Base.Proto
 /-
   C09 driver.  Strings cross the protocol as comma-separated code points (`-` = empty).
 
-    lex <dt> <cps>                       → lex|ill₀|val₀|valid₁|back₁|n1same|idem|ill₁|val₁[|spell…]
+    lex <dt> <cps> [d|t|o]               (normalize default / explicit True / rdflib.NORMALIZE_LITERALS off)
+                                         → lex|ill₀|val₀|valid₁|back₁|n1same|idem|ill₁|val₁[|spell…]
         l₀ = Literal(s, dt, normalize=False), l₁ = Literal(s, dt), n₁ = l₀.normalize(), n₂ = n₁.normalize()
     py <pyspec>                          → py|dt|valid|back[|spell]
         l = Literal(v); valid = lexical form in the XSD lexical space (Lean recogniser); back = value of re-reading it
-    eq <lit> <lit>                       → eq|term-equal (spelling mode only, else -)|eq-result     lit = L <dt|-> <cps> <0|1> | P <pyspec>
+    eq <lit> <lit>                       → eq|term-equal (spelling mode only, else -)|a.eq(b)|b.eq(a)|a.neq(b)     lit = L <dt|-> <cps> <0|1> | P <pyspec>
     spell 0|1                            → ok      (also print the exact lexical forms; development diagnostic)
     relit <dt|-> <lit>                   → relit|ill|val|valid|back|idem|val(normalize())|eq(ref)|eq(old)[|spell…]
         new = Literal(old) / Literal(old, datatype=dt); ref = Literal(str(new), datatype=new.datatype, normalize=False)
-    eqpy <lit> <pyspec>                  → eqpy|1|0|NotImplemented      Literal.eq(plain Python object)
+    eqpy <lit> <pyspec>                  → eqpy|1|0|NotImplemented|neq      Literal.eq / neq (plain Python object)
+    pyd <dt|-> <pyspec>                  → like py, for Literal(v, datatype=dt)
     skip                                 → unmodelled   (the harness declares the case outside the model)
   pyspec: int i | bool 0|1 | dec 0|1 coeff exp | str cps | date y m d | time h mi s us tz|- |
           datetime y m d h mi s us tz|- | td us | dur years months us
@@ -151,10 +153,10 @@ def litSpec? : List String → Option (LitR × List String)
 structure St where
   spell : Bool
 
-def lexLine (st : St) (d : Dt) (s : Str) : String :=
+def lexLine (st : St) (d : Dt) (s : Str) (nz : Bool := true) : String :=
   if !inFragment (some d) s then "unmodelled"
   else
-    match mkLex (some d) s false, mkLex (some d) s true with
+    match mkLex (some d) s false, mkLex (some d) s nz with
     | some l0, some l1 =>
       match l0.normalize with
       | some n1 =>
@@ -168,8 +170,8 @@ def lexLine (st : St) (d : Dt) (s : Str) : String :=
       | none => "lex|raise"
     | _, _ => "lex|raise"
 
-def pyLine (st : St) (v : PyVal) : String :=
-  match mkValue v none with
+def pyLine (st : St) (v : PyVal) (dt : Option Dt := none) : String :=
+  match mkValue v dt with
   | none => "py|raise"
   | some l =>
     let back := (mkLex l.dt l.lex false).map (·.value)
@@ -181,9 +183,10 @@ def pyLine (st : St) (v : PyVal) : String :=
 def eqLine (st : St) (a b : LitR) : String :=
   match a, b with
   | .lit x, .lit y =>
-    let e := match x.eq y with | some true => "1" | some false => "0" | none => "TypeError"
+    let sh := fun (r : Option Bool) => match r with | some true => "1" | some false => "0" | none => "TypeError"
+    let ne := fun (r : Option Bool) => match r with | some b => b01 (!b) | none => "TypeError"
     let t := if st.spell then b01 (x.termEq y) else "-"
-    s!"eq|{t}|{e}"
+    s!"eq|{t}|{sh (x.eq y)}|{sh (y.eq x)}|{ne (x.eq y)}"
   | .unmodelled, _ => "unmodelled"
   | _, .unmodelled => "unmodelled"
   | _, _ => "eq|raise"
@@ -217,6 +220,16 @@ def step (st : St) : List String → St × String
     match dt? d, cps? s with
     | some d, some s => (st, lexLine st d s)
     | _, _ => (st, "bad-op")
+  | ["lex", d, s, mode] =>
+    match dt? d, cps? s with
+    | some d, some s =>
+      if mode = "o" then (st, lexLine st d s false) else if mode = "t" || mode = "d" then (st, lexLine st d s true)
+      else (st, "bad-op")
+    | _, _ => (st, "bad-op")
+  | "pyd" :: d :: r =>
+    match optDt? d, pySpec? r with
+    | some d, some (v, []) => (st, pyLine st v d)
+    | _, _ => (st, "bad-op")
   | "py" :: r =>
     match pySpec? r with
     | some (v, []) => (st, pyLine st v)
@@ -230,7 +243,7 @@ def step (st : St) : List String → St × String
     | some (.lit l, r') =>
       match pySpec? r' with
       | some (v, []) =>
-        (st, match l.eqPy v with | some true => "eqpy|1" | some false => "eqpy|0" | none => "eqpy|NotImplemented")
+        (st, match l.eqPy v with | some true => "eqpy|1|0" | some false => "eqpy|0|1" | none => "eqpy|NotImplemented|-")
       | _ => (st, "bad-op")
     | some (.unmodelled, _) => (st, "unmodelled")
     | some (.raises, _) => (st, "eqpy|raise")
